@@ -94,6 +94,7 @@ type Gen struct {
 	Over   int // the Over-th limited node (list, bitlist, byte list) is given limit+1 elements; -1: none
 	node   int
 	DidOver bool
+	OverCap int // largest over-limit encoding the generator may produce (bytes)
 	Mode   int // 0 random, 1 minimal (all empty / zero), 2 maximal within budget
 }
 
@@ -126,7 +127,7 @@ func (g *Gen) count(limit uint64, minElem uint64) uint64 {
 	g.node++
 	if g.Over == me {
 		// limit+1 elements, when that is affordable
-		if limit+1 <= 4096 && (limit+1)*maxU(minElem, 1) <= 6000 {
+		if limit+1 <= 4096 && (limit+1)*maxU(minElem, 1) <= uint64(maxInt(g.OverCap, 6000)) {
 			g.DidOver = true
 			return limit + 1
 		}
